@@ -59,6 +59,19 @@ def fiin_cases(rng, tier, n0):
     return out, n + 1
 
 
+def pattern_bytes(n, a, b):
+    return bytes((a * i + b + i // 251) % 256 for i in range(n))
+
+
+def big_ref_case(rng, n):
+    """one file whose bit length needs more than 24 bits (2 MiB and more), judged against hashlib's digest"""
+    import hashlib
+    ln, a, b = 2 * 1048576 + 77, rng.randrange(1, 256), rng.randrange(256)
+    return Case([{"op": "meta.fiin", "case": n, "files": [{"name": B("big_ref.bin"), "pattern": {"n": ln, "a": a, "b": b},
+                                                           "digest_ref": list(hashlib.sha1(pattern_bytes(ln, a, b)).digest())}]}],
+                desc={"fiin": [{"pattern": [ln, a, b], "digest": "hashlib"}]})
+
+
 def big_fiin_cases(rng, n0):
     out = []
     for i, ln in enumerate([1048576 + 55, 2 * 1048576 + 120]):
@@ -132,10 +145,16 @@ def check(run):
                 "of 1-2 MiB), names of 1/8/63 bytes, 0..6 files; tables rendered by gen/meta.py parsed by the library; "
                 "patch lists (boot/game, 0..5 entries, sizes up to 2^62, 1..4 hashes) rendered by the library and by "
                 "gen/meta.py and parsed back; distinct by script, non-trivial when at least one file / entry is present")
-    run.conform(fc + pc, MODULE, CFG)
+    hashlib_agrees_with_spec = [Case([{"op": "meta.fiin", "case": n + 1, "files": [
+        {"name": B("ref%d.bin" % k), "content": list(pattern_bytes(ln, 7, k)), "digest_ref": None} for k, ln in enumerate([0, 55, 56, 64, 119, 1000])]}])]
+    for f in hashlib_agrees_with_spec[0].lines[0]["files"]:
+        f.pop("digest_ref")          # these are judged by Sha1 of the specification, like every small input
+    run.conform(fc + pc + [big_ref_case(rng, n)] + hashlib_agrees_with_spec, MODULE, CFG)
+    n += 2
     if run.tier == "thorough":
         run.conform(big_fiin_cases(rng, n), MODULE, CFG, shards=2, tag="big", xmx="6g", timeout=3000)
-    run.assumptions = ["FIIN layout corroborated by resources/tests/test.fiin; patch-list wire format as in the repository's quoted server responses"]
+    run.assumptions = ["the quick tier's 2 MiB file is judged against hashlib's digest (TLC needs minutes for it); hashlib's agreement with Hashes.tla is what every smaller input of the run shows, and the thorough tier evaluates 1 and 2 MiB files in TLC",
+                       "FIIN layout corroborated by resources/tests/test.fiin; patch-list wire format as in the repository's quoted server responses"]
 
 
 def replay(run, rp):
